@@ -19,3 +19,6 @@ func TestMain(m *testing.M) {
 func TestC02(t *testing.T) { simkit.Main(t, HarnessC02) }
 func TestC01(t *testing.T) { simkit.Main(t, HarnessC01) }
 func TestC04(t *testing.T) { simkit.Main(t, HarnessC04) }
+func TestC03(t *testing.T) { simkit.Main(t, HarnessC03) }
+func TestC19(t *testing.T) { simkit.Main(t, HarnessC19) }
+func TestC05(t *testing.T) { simkit.Main(t, HarnessC05) }
